@@ -95,8 +95,13 @@ def treeKids (c : Ctx) (p : Path) : List (Str × Src) → Except Rej (List Entry
     pure (a ++ r)
 end
 
-/-- name under which a directory argument is installed: its last non-empty component -/
-def dirName (arg : Str) : Path := (toPath arg).getLast?.toList
+/-- last non-empty component of a directory argument -/
+def lastName (arg : Str) : Path := (toPath arg).getLast?.toList
+
+/-- name under which a directory argument is installed: its last non-empty component (`dir`, `dir/`, `./dir`, `a//dir//`);
+the component `.` names the directory before it, not an entry of it: `dir/.` (and `.`) install the *contents* of the
+directory directly under the destination, without a `dir/` level -/
+def dirName (arg : Str) : Path := if lastName arg = [['.']] then [] else lastName arg
 
 def trees (c : Ctx) : List Target → Except Rej (List Entry)
   | [] => pure []
